@@ -66,7 +66,7 @@ theorem agree_datetime (hS : ScalarRT E) {ty} : AgreeD E classes enums dyn N (.d
     cases n with
     | zero => cases hn
     | succ n => simp only [intoDynF, intoC]
-  | _ => first | (simp [Val.isData] at hv; done) | (simp at ht; done)
+  | _ => first | (simp [Val.isData] at hv; done) | (simp [dtTryTyped, Val.dtKind] at ht; done)
 
 theorem agree_cond {inner c fmt} (h : AgreeD E classes enums dyn N inner) :
     AgreeD E classes enums dyn N (.cond inner c fmt) := by
